@@ -48,7 +48,8 @@ type lcSpec struct {
 	heartbeat   time.Duration
 	noHeartbeat bool
 	genStart    uint32
-	numTokens   int // 0 = the default (numTokens)
+	numTokens   int           // 0 = the default (numTokens)
+	finalSleep  time.Duration // full lifecycler: how long it stays LEAVING (heartbeating) before it is gone
 }
 
 type action struct {
@@ -108,6 +109,7 @@ func buildLifecycler(st *Store, sp lcSpec) *instance {
 	cfg := ring.LifecyclerConfig{NumTokens: numTokens, HeartbeatPeriod: hb, HeartbeatTimeout: hbTimeout, ObservePeriod: sp.observe, JoinAfter: sp.joinAfter,
 		Addr: "10.0.0.1", Port: 1, ID: sp.id, Zone: "z", UnregisterOnShutdown: sp.unregister, ReadinessCheckRingHealth: sp.ringHealth, TokensFilePath: sp.tokensFile,
 		RingTokenGenerator: tokenGen{LowestFree{16, sp.genStart}}}
+	cfg.FinalSleep = sp.finalSleep
 	cfg.RingConfig.KVStore.Mock = st.Client(sp.tag)
 	cfg.RingConfig.HeartbeatTimeout = hbTimeout
 	cfg.RingConfig.ReplicationFactor = 1
